@@ -28,6 +28,15 @@ CHECKS = {
                 note="Layer 1 (crypto laws) trusts x/crypto primitives; layers 2/3 trust the harness reference initiator/responder written from the documented convention Derive(secret, requestID, initiatorPub, responderPub, isInitiator). ICMP data phase unreachable in the sandbox (no unprivileged ICMP sockets): covered at key-derivation level only.",
                 technique="property-based testing (rapid): algebraic/metamorphic laws + differential against a reference endpoint",
                 runs=[dict(run="^TestVP_C03_CryptoLaws$", quick=4000, thorough=400000, shards=16)]),
+    "C05": dict(pkg="internal/protocol",
+                text="Every message kind round-trips from structured generators at its wire limits; every decoder is total, proportional in allocation and a fix point under re-encoding for mutated valid encodings, arbitrary bytes and (thorough) a coverage-guided fuzz campaign seeded with valid encodings.",
+                note="Equality identifies nil/empty slices and an absent/plaintext encryption wrapper; allocation bound 64x input + 256 KiB measured with runtime.MemStats; RouteWithdraw generated with the IP/agent families its senders produce. Trusts Go, rapid, the comparator in harness/protocol/zz_vp_c05_test.go.",
+                technique="property-based round-trip + decode/encode fix-point testing (rapid) and coverage-guided native fuzzing with the same oracle",
+                runs=[dict(run="^TestVP_C05_RoundTrip$", quick=6000, thorough=400000, shards=16),
+                      dict(run="^TestVP_C05_FrameStream$", quick=300, thorough=20000, shards=4),
+                      dict(run="^TestVP_C05_Mutated$", quick=6000, thorough=600000, shards=16),
+                      dict(run="^TestVP_C05_Arbitrary$", quick=3000, thorough=300000, shards=16)],
+                fuzz=[dict(target="FuzzVP_C05_Decode", seconds=90)]),
     "C33": dict(pkg="internal/sleep",
                 text="Generated instants (incl. pre-epoch, +-2 ns around every cycle/window/tolerance edge) and configurations are compared with an independent floor-division reference over all k in Z; exploration is the right level for a pure function over a huge numeric domain.",
                 note="Trusts the Go toolchain, rapid, and the reference arithmetic in harness/sleep/zz_vp_c33_test.go; instants limited to +-100 years around the epoch (time.Sub saturation).",
